@@ -1151,3 +1151,355 @@ def _key_of(key_term, entry_term):
     if key_term[0] == "call" and norm(key_term[1]).endswith("::key"):
         return strip_refs(key_term[2][0]) == e or show(strip_refs(key_term[2][0])) in show(e) or show(e) in show(key_term[2][0])
     return False
+
+
+# =====================================================================================================================
+#  C05: list primitives and who may promote
+# =====================================================================================================================
+def list_primitives(ctx):
+    """(splice_in bodies, unlink bodies): small bodies whose only effects are 4 resp. 2 link stores through pointers"""
+    r, eff = ctx.roles, ctx.eff
+    ins, outs = [], []
+    for b in ctx.facts.bodies:
+        d = eff.direct[b.path]
+        n = sum(1 for (f, _b, _s, via) in d["w_entry"] if via and f in r.links)
+        if b.is_closure or cfg_of(b).loops() or d["table"] or d["swap_table"] or d["w_cache"]:
+            continue
+        if n == 4:
+            ins.append(b)
+        elif n == 2 and not any(c.model and c.model.get("table") == "new" for c in ctx.cg.calls.get(b.path, [])) \
+                and not any(norm(c.resolved or c.nominal).startswith("std::boxed::Box") for c in ctx.cg.calls.get(b.path, [])):
+            outs.append(b)
+    return ins, outs
+
+
+def c05(ctx, res):
+    r, cg, eff = ctx.roles, ctx.cg, ctx.eff
+    te = _te(ctx, True)
+    ins, outs = list_primitives(ctx)
+    res.floor("C05.3 splice-in primitives", len(ins), 1)
+    res.floor("C05.3 unlink primitives", len(outs), 2)
+    A, B = r.L_LRU, r.L_MRU
+    raw = r.EPTR_RAW
+    # ---- 3. store sets
+    splice_field_of_first = {}
+    for b in ins:
+        res.count("C05.3 list primitives")
+        rs = te.all_results(b, max_paths=3)
+        good = len(rs) == 1
+        why = []
+        if good:
+            st = sorted((show(p), show(v)) for (p, v, _bb) in rs[0].stores)
+            found = None
+            for (X, Y) in (("p2", "p3"), ("p3", "p2")):
+                for (F, G) in ((A, B), (B, A)):
+                    exp = sorted([("*%s.%s.%s" % (X, raw, F), "*p1"), ("*%s.%s.%s" % (Y, raw, G), "*p1"),
+                                  ("**p1.%s.%s" % (raw, G), X), ("**p1.%s.%s" % (raw, F), Y)])
+                    if st == exp:
+                        found = (X, Y, F, G)
+            if found is None:
+                good = False
+                why.append("stores %s are not a doubly-linked splice of *self between its two arguments" % st)
+            else:
+                splice_field_of_first[b.path] = found
+        else:
+            why.append("%d paths" % len(rs))
+        res.oblige("C05.3 `%s` writes exactly the four links of a splice-in" % b.path, good, detail=why, key="C05.3:%s:splice-in" % b.path,
+                   loc=span_str(b.span), rule="C05.3 list primitives", msg="`%s`: %s" % (b.path, "; ".join(why)))
+    for b in outs:
+        res.count("C05.3 list primitives")
+        rs = te.all_results(b, max_paths=3)
+        good = len(rs) == 1
+        why = []
+        if good:
+            st = sorted((show(p), show(v)) for (p, v, _bb) in rs[0].stores)
+            ok = False
+            for node in ("p1", "*p1.%s" % raw, "**p1.%s" % raw):
+                def fld(n, f):
+                    return "%s.%s" % (n, f)
+                for (n_read,) in ((node,),):
+                    exp = sorted([("*%s.%s.%s" % (fld(n_read, A), raw, B), fld(n_read, B)),
+                                  ("*%s.%s.%s" % (fld(n_read, B), raw, A), fld(n_read, A))])
+                    if st == exp:
+                        ok = True
+            # by-value self: fields without deref
+            if not ok:
+                why.append("stores %s are not `n.%s.%s = n.%s; n.%s.%s = n.%s`" % (st, A, B, B, B, A, A))
+                good = False
+        else:
+            why.append("%d paths" % len(rs))
+        res.oblige("C05.3 `%s` writes exactly the two links that bypass the node" % b.path, good, detail=why, key="C05.3:%s:unlink" % b.path,
+                   loc=span_str(b.span), rule="C05.3 list primitives", msg="`%s`: %s" % (b.path, "; ".join(why)))
+    # callers of splice-in on a cache: node goes between the seal and the seal's MRU link, seal-side field = MRU link
+    te0 = _te(ctx, False)
+    n_call = 0
+    for b in ctx.facts.bodies:
+        for c in cg.calls.get(b.path, []):
+            if c.target is None or c.target.path not in splice_field_of_first:
+                continue
+            n_call += 1
+            res.count("C05.3 promotion sites")
+            (X, Y, F, G) = splice_field_of_first[c.target.path]
+            probs = []
+            for p in te0.paths(b, max_paths=20):
+                pr = te0.eval_path(b, p)
+                for (bb, full, argt, val, cc) in pr.calls:
+                    if cc is not c:
+                        continue
+                    ax = argt[1] if X == "p2" else argt[2]
+                    ay = argt[2] if X == "p2" else argt[1]
+                    sx, sy = show(ax), show(ay)
+                    # X must be the seal and its written field F the MRU link; Y the old MRU (seal's MRU link)
+                    seal_terms = [s_ for s_ in (sx, sy) if s_.endswith(".%s" % r.SEAL) and "(" not in s_]
+                    if sx.endswith(".%s" % r.SEAL) and F == B:
+                        if not (("." + r.SEAL) in sy and sy.rstrip(")").endswith("." + B)):
+                            probs.append("second neighbour is `%s`, not the seal's MRU-side link" % sy[:100])
+                    elif sy.endswith(".%s" % r.SEAL) and G == B:
+                        if not (("." + r.SEAL) in sx and sx.rstrip(")").endswith("." + B)):
+                            probs.append("second neighbour is `%s`, not the seal's MRU-side link" % sx[:100])
+                    else:
+                        probs.append("the node is not linked directly next to the seal on its MRU side (neighbours `%s`, `%s`)" % (sx[:80], sy[:80]))
+            uniq = sorted(set(probs))
+            res.oblige("C05.3 `%s` links the node between the seal and the current most-recently-used entry" % b.path, not uniq, detail=uniq,
+                       key="C05.3:%s:mru-side" % b.path, loc=c.loc, rule="C05.3 promotion at the MRU end", msg="`%s`: %s" % (b.path, "; ".join(uniq)))
+    res.floor("C05.3 promotion sites", n_call, 1)
+    # ---- 1. who may reach the promotion primitive (call graph; complements the E3 may-ghost for everything that is not &mut self)
+    promoting = {"insert", "try_insert", "get", "get_entry", "get_lru", "touch", "mutate"}
+    inplace_unlink = [b for b in outs if (b.j.get("inputs") or [{}])[0].get("name") == r.eptr]
+    bad_targets = set(x.path for x in ins) | set(x.path for x in inplace_unlink)
+    eps = list(r.pub_methods()) + [b for b in ctx.facts.bodies if b.kind == "assoc_fn" and b.impl_trait and b.impl_self and b.impl_self.get("local")
+                                   and b.impl_trait not in ("std::clone::Clone",) or False]
+    for b in eps:
+        if b.kind != "assoc_fn":
+            continue
+        is_cache_inherent = b.impl_self and b.impl_self.get("name") == r.cache and not b.impl_trait
+        if is_cache_inherent and b.name in promoting:
+            continue
+        if b.impl_trait == "std::clone::Clone" and b.impl_self and b.impl_self.get("name") == r.cache:
+            continue
+        res.count("C05.1 non-promoting entry points")
+        reach = cg.reach(b)
+        hit = sorted(p for p in reach if p in bad_targets)
+        res.oblige("C05.1 `%s` cannot reach the promotion primitive" % b.path, not hit, key="C05.1:%s:may-promote" % b.path, loc=span_str(b.span),
+                   rule="C05.1 who may promote", msg="`%s` reaches %s: it can change the recency order although it is an observation / removal / "
+                   "capacity operation" % (b.path, hit))
+
+
+# =====================================================================================================================
+#  C14: clone
+# =====================================================================================================================
+def c14(ctx, res):
+    r, cg, eff = ctx.roles, ctx.cg, ctx.eff
+    te = _te(ctx, True)
+    b = r.trait_method("std::clone::Clone", "clone")
+    if b is None:
+        res.violate("C14:anchor-missing:clone", "Clone for the cache not found", None, {}, "anchors")
+        return
+    loc = span_str(b.span)
+    try:
+        paths = te.paths(b, max_visits=2, max_paths=100)
+    except TooComplex as e:
+        res.violate("C14:too-complex", str(e), loc, {}, "C14")
+        return
+    sealp = "p1.%s.%s" % (r.SEAL, r.EPTR_RAW)
+    A, Bm = r.L_LRU, r.L_MRU
+    starts = {"**%s.%s" % (sealp, A): A, "**%s.%s" % (sealp, Bm): Bm}
+    probs = []
+    n_it = 0
+    for p in paths:
+        pr = te.eval_path(b, p)
+        ret = pr.ret
+        if ret[0] != "agg" or ret[2] != r.cache:
+            probs.append("the result is not built as a fresh cache value")
+            continue
+        f = dict(ret[4])
+        fields = {k: show(v) for k, v in f.items()}
+        stores = {show(pl): show(v) for (pl, v, _bb) in pr.stores}
+        if fields.get(r.MS) != "*p1.%s" % r.MS:
+            probs.append("max_size of the clone is `%s`" % fields.get(r.MS))
+        if fields.get(r.CS) != "*p1.%s" % r.CS:
+            probs.append("current_size of the clone is `%s`, not the source's" % fields.get(r.CS))
+        hb = fields.get(r.HB, "")
+        if not (hb.startswith("<") and "as std::clone::Clone>::clone(&*p1.%s)" % r.HB in hb):
+            probs.append("the hash builder is `%s`, not a clone of the source's" % hb[:80])
+        tb = fields.get(r.TABLE, "")
+        if not ("::with_capacity(" in tb and "::capacity(&*p1.%s)" % r.TABLE in tb):
+            probs.append("the clone's table is requested as `%s`, not with the source's capacity()" % tb[:120])
+        sl = fields.get(r.SEAL, "")
+        if "p1." in sl:
+            probs.append("the clone's seal derives from the source (`%s`)" % sl[:80])
+        conds = [(show(d), ch) for (d, ch, _bb) in pr.conds if "PartialEq" in show(d)]
+        if not conds:
+            probs.append("no traversal loop")
+            continue
+        d0 = conds[0][0]
+        direction = None
+        for s_, dr in starts.items():
+            if s_ in d0 and ("*p1.%s" % r.SEAL) in d0:
+                direction = dr
+        if direction is None:
+            probs.append("the traversal does not start at one of the source seal's links / stop at the source seal: `%s`" % d0[:160])
+            continue
+        if len(conds) < 2:
+            continue
+        n_it += 1
+        ent0 = "***%s.%s.%s" % (sealp, direction, r.EPTR_RAW)
+        d1 = conds[1][0]
+        if ("%s.%s" % (ent0, direction)) not in d1:
+            probs.append("the traversal does not continue with the visited entry's `%s` link: `%s`" % (direction, d1[:160]))
+        clones = [x for x in pr.calls if x[4] is not None and x[4].target is not None and x[4].target.name == "clone"
+                  and x[4].target.impl_self and x[4].target.impl_self.get("name") == r.entry]
+        if len(clones) != 1 or show(clones[0][2][0]).lstrip("&") != ent0.lstrip("*") and ent0.lstrip("*") not in show(clones[0][2][0]):
+            probs.append("the visited entry is not duplicated with Entry::clone exactly once")
+        inserts = [x for x in pr.calls if x[4] is not None and x[4].target is not None and
+                   any(cls in ("insert", "insert_grow") for (_p, (cls, _c)) in eff.trans(x[4].target)["table"])]
+        if len(inserts) != 1:
+            probs.append("%d insertions per visited entry" % len(inserts))
+        else:
+            tgt = show(inserts[0][2][0])
+            if "p1" in tgt.split("{")[0]:
+                probs.append("the clone of an entry is inserted into the source (`%s`)" % tgt[:60])
+            # which side?  walking from the LRU end, each clone must become the MRU of the new cache (and vice versa)
+            promoter = any(pp in set(x.path for x in list_primitives(ctx)[0]) for pp in cg.reach(inserts[0][4].target))
+            if direction == A and not promoter:
+                probs.append("walking from the least-recently-used end but the clones are not linked at the MRU end of the new cache")
+            if direction == Bm:
+                probs.append("walking from the most-recently-used end while inserting at the MRU end reverses the order")
+    uniq = sorted(set(probs))
+    res.count("C14 clone paths", len(paths))
+    res.oblige("C14.1 clone copies max_size/current_size, clones the hasher, requests the source's capacity, and re-inserts Entry::clone of every "
+               "visited entry in an order-preserving traversal of the source", not uniq, detail=uniq, key="C14.1:clone-shape", loc=loc,
+               rule="C14.1 clone terms", msg="clone: %s" % "; ".join(uniq))
+    # ---- 3. independence: no pointer into the source survives: copied links of the cloned entry are overwritten by the splice-in
+    ins, _outs = list_primitives(ctx)
+    ok3 = bool(ins)
+    # the inserted entry reaches the splice-in primitive as its node on every path of the inserting routine
+    for c in cg.calls.get(b.path, []):
+        if c.target is not None and any(cls in ("insert", "insert_grow") for (_p, (cls, _c)) in eff.trans(c.target)["table"]) and c.target.name != "clone":
+            g = cfg_of(c.target)
+            promo_calls = [cc for cc in cg.calls.get(c.target.path, []) if cc.target is not None and
+                           any(pp in set(x.path for x in ins) for pp in cg.reach(cc.target))]
+            if not promo_calls or not g.all_paths_pass(0, g.return_blocks(), [cc.bb for cc in promo_calls]):
+                ok3 = False
+    res.oblige("C14.3 every cloned entry passes through the splice-in primitive (which overwrites both copied links) before the routine returns", ok3,
+               key="C14.3:copied-links-overwritten", loc=loc, rule="C14.3 independence",
+               msg="a cloned entry can stay in the new cache with links copied from the source: later operations on the clone would write into the source")
+    # ---- 2. source untouched: C19's taint analysis of clone
+    from ..taint import TaintAnalysis
+    ta = TaintAnalysis(ctx)
+    ta.run(b, frozenset([1]))
+    res.count("C14.2 taint contexts", len(ta.memo))
+    res.oblige("C14.2 clone writes nothing through a pointer derived from the source", not ta.writes, detail=[w[2] for w in ta.writes][:5],
+               key="C14.2:clone-writes-source", loc=loc, rule="C14.2 source untouched", msg="clone writes to the source: %s" % [w[2] for w in ta.writes][:3])
+
+
+# =====================================================================================================================
+#  C10 / C11 structural clauses
+# =====================================================================================================================
+def c10(ctx, res):
+    r, cg, eff = ctx.roles, ctx.cg, ctx.eff
+    te = _te(ctx, True)
+    # 6. accessors of the public error enum return the fields of the variant they are called on
+    for name, a in ctx.facts.adts.items():
+        if a["kind"] != "enum" or a["vis"] != "pub":
+            continue
+        meths = [b for b in ctx.facts.bodies if b.kind == "assoc_fn" and not b.impl_trait and b.impl_self and b.impl_self.get("name") == name]
+        if not meths:
+            continue
+        for b in meths:
+            res.count("C10.6 error accessors")
+            rs = te.all_results(b, max_paths=12)
+            probs = []
+            for pr in rs:
+                var = None
+                for (d, ch, _bb) in pr.conds:
+                    if isinstance(d, tuple) and d[0] == "discr":
+                        var = ch
+                s_ = show(pr.ret)
+                vnames = [v["name"] for v in a["variants"]]
+                if var is not None and isinstance(var, int) and var < len(vnames):
+                    vn = vnames[var]
+                    import re
+                    used = set(re.findall(r"as (\w+)\)", s_))
+                    if used and used != {vn}:
+                        probs.append("on variant %s it reads %s" % (vn, sorted(used)))
+                    want_k = "as %s).key" % vn
+                    want_v = "as %s).value" % vn
+                    outs = b.j["output"]["s"]
+                    if ("key" in b.name or "entry" in b.name) and want_k not in s_:
+                        probs.append("variant %s: key not returned" % vn)
+                    if ("value" in b.name or "entry" in b.name) and want_v not in s_:
+                        probs.append("variant %s: value not returned" % vn)
+                    if "entry" in b.name and s_.find(want_k) > s_.find(want_v):
+                        probs.append("variant %s: key and value swapped" % vn)
+            uniq = sorted(set(probs))
+            res.oblige("C10.6 `%s` returns the fields of the variant it is called on" % b.path, not uniq, detail=uniq, key="C10.6:%s" % b.path,
+                       loc=span_str(b.span), rule="C10.6 error accessors", msg="`%s`: %s" % (b.path, "; ".join(uniq)))
+    # 4. failure is a no-op structurally: between entry and every Err return of insert/try_insert no writer ran -- E3 'atomic' covers the
+    #    numeric state and table identity; the list is covered by the may-promote ghost (C05) and by the absence of unlink calls:
+    for nm in ("insert", "try_insert"):
+        b = r.method(nm)
+        if b is None:
+            res.violate("C10:anchor-missing:%s" % nm, "pub fn %s not found" % nm, None, {}, "anchors")
+
+
+def c11(ctx, res):
+    r, cg, eff = ctx.roles, ctx.cg, ctx.eff
+    b = r.method("mutate")
+    if b is None:
+        res.violate("C11:anchor-missing:mutate", "pub fn mutate not found", None, {}, "anchors")
+        return
+    g = cfg_of(b)
+    te = _te(ctx, False)
+    closure_calls = [c for c in cg.calls.get(b.path, []) if c.user_kind == "closure"]
+    lookups = [c for c in cg.calls.get(b.path, []) if (c.target is not None and any(cls == "find" for (_p, (cls, _c)) in eff.trans(c.target)["table"]))
+               or (c.model and c.model.get("table") == "find")]
+    res.count("C11.1 closure call sites", len(closure_calls))
+    ok = len(closure_calls) == 1 and len(lookups) >= 1
+    why = []
+    if ok:
+        cc = closure_calls[0]
+        lk = lookups[0]
+        # the closure call is dominated by the Some edge of the lookup
+        dest = lk.term["dest"]["l"]
+        some_edge = None
+        for bi, bl in enumerate(b.blocks):
+            t = bl["term"]
+            if t["k"] == "switch":
+                dl = t["discr"].get("place", {}).get("l")
+                if any(st["k"] == "assign" and st["place"]["l"] == dl and st["rv"]["k"] == "discr" and st["rv"]["place"]["l"] == dest for st in bl["stmts"]):
+                    for (val, tb) in t["targets"]:
+                        if val == 1:
+                            some_edge = tb
+        if some_edge is None or not g.dominates(some_edge, cc.bb):
+            ok = False
+            why.append("the closure call is not dominated by the `Some` edge of the lookup")
+        # nothing with an effect precedes the closure
+        for c in cg.calls.get(b.path, []):
+            if c is cc or c.target is None:
+                continue
+            if g.dominates(c.bb, cc.bb) and c.bb != cc.bb:
+                t = eff.trans(c.target)
+                if t["w_cache"] or any(via for (_p, (f, _b, _s, via)) in t["w_entry"]) or any(cls in ("insert", "remove", "clear", "drain") for (_p, (cls, _c)) in t["table"]):
+                    ok = False
+                    why.append("`%s` (which has effects) runs before the closure" % c.target.path)
+        # 2. the closure's result is what Ok(Some(_)) carries
+        res_local = cc.term["dest"]["l"]
+        fwd = False
+        for p in te.paths(b, max_paths=40):
+            pr = te.eval_path(b, p)
+            s_ = show(pr.ret)
+            if s_.startswith("std::result::Result{0: std::option::Option{0: "):
+                inner = pr.ret[4][0][1][4][0][1] if pr.ret[0] == "agg" else None
+                if inner is not None and inner[0] == "call" and "FnOnce" in inner[1]:
+                    fwd = True
+                else:
+                    ok = False
+                    why.append("Ok(Some(_)) carries `%s`, not the closure's result" % show(inner)[:80])
+        if not fwd:
+            ok = False
+            why.append("no path returns Ok(Some(closure result))")
+    else:
+        why.append("%d closure call sites, %d lookups" % (len(closure_calls), len(lookups)))
+    res.oblige("C11.1/2 mutate calls the closure once, only on the hit edge of the lookup and before any effect, and forwards its result in Ok(Some(_))",
+               ok, detail=why, key="C11.1:closure-site", loc=span_str(b.span), rule="C11.1 closure site", msg="mutate: %s" % "; ".join(why))
